@@ -126,6 +126,15 @@ func init() {
 		x.noteAssume("trusted: reflect.Select returns the index of one of the given cases (0 <= chosen < len(cases))")
 		return TupleV{ch, x.fresh("selv", SInt), x.fresh("selok", SBool)}, true
 	}
+	for _, n := range []string{"log.Panic", "log.Panicf", "log.Panicln", "log.Logger.Panic", "log.Logger.Panicf", "log.Logger.Panicln"} {
+		n := n
+		libModels[n] = func(x *Exec, st *State, e *ast.CallExpr, a []Value, _ []types.Type) (Value, bool) {
+			x.noteAssume("trusted (T5): " + n + " panics after printing, it does not exit the process")
+			st.out = outPanic
+			st.note = n
+			return intLit(0), true
+		}
+	}
 	libModels["strconv.Atoi"] = func(x *Exec, st *State, e *ast.CallExpr, a []Value, _ []types.Type) (Value, bool) {
 		s := asTerm(a[0])
 		x.noteAssume("trusted: strconv.Atoi modelled by atoiVal/atoiErr of specs/common.smt2 (base 10, optional sign, int64 range)")
@@ -719,6 +728,29 @@ func (x *Exec) evalSpecCall(e *ast.CallExpr, st *State) (Value, types.Type) {
 		}
 		tmp.old = nil
 		return x.eval(e.Args[0], tmp)
+	case "forallS", "existsS": // quantifier over all strings: forallS(k, body)
+		id, ok := e.Args[0].(*ast.Ident)
+		if !ok || len(e.Args) != 2 {
+			engineFail("forallS/existsS need (name, body)")
+		}
+		x.nfresh++
+		qn := fmt.Sprintf("%s_q%d", id.Name, x.nfresh)
+		saved, had := x.quant[id.Name]
+		if x.quant == nil {
+			x.quant = map[string]Term{}
+		}
+		x.quant[id.Name] = Term{qn, SStr}
+		body := x.evalBool(e.Args[1], st)
+		if had {
+			x.quant[id.Name] = saved
+		} else {
+			delete(x.quant, id.Name)
+		}
+		q := "forall"
+		if name == "existsS" {
+			q = "exists"
+		}
+		return Term{"(" + q + " ((" + qn + " String)) " + body + ")", SBool}, types.Typ[types.Bool]
 	case "atSelect": // evaluate in the state in which reflect.Select was called (current state if it was not)
 		if snap, ok := st.names["$selState"].(*State); ok {
 			tmp := snap.clone()
